@@ -6,6 +6,7 @@ import (
 	"path/filepath"
 	"sort"
 	"strings"
+	"sync"
 )
 
 func init() {
@@ -51,8 +52,17 @@ func c19Trans(c *Ctx, pre *Node, st Step, res *Result, post *State) ([]Violation
 		}
 		vs = append(vs, Violation{Oracle: "no-panic", Command: st.Cmd(), Tags: st.Tags, Site: site, Detail: fmt.Sprintf("exit %d on a damaged repository%s", res.Exit, outputTail(res))})
 	}
-	return vs, true
+	// cat-file of an object whose intact content is known: success means exactly that content / kind
+	if st.Cmd() == "cat-file" && len(st.Args) == 3 && res.Exit == 0 {
+		if want, ok := c19Want.Load(st.Args[1] + " " + st.Args[2]); ok && res.Stdout != want.(string) {
+			vs = append(vs, Violation{Oracle: "damaged-object-not-served", Command: "cat-file", Tags: st.Tags,
+				Detail: fmt.Sprintf("cat-file %s %s succeeded and printed %q; the object stored under that name originally reads %q", st.Args[1], st.Args[2], trunc(res.Stdout, 80), trunc(want.(string), 80))})
+		}
+	}
+	return vs, len(vs) == 0
 }
+
+var c19Want sync.Map // "-t <id>" / "-p <id>" -> output on the intact repository
 
 func checkC19(e *RunEnv) *CheckResult {
 	spec := &Spec{Depth: 0, CheckTrans: c19Trans}
@@ -90,7 +100,18 @@ func checkC19(e *RunEnv) *CheckResult {
 		for _, v := range base.Abs().Branches {
 			tip = v
 		}
-		cmds := [][]string{{"cat-file", "-p", tip}, {"ls-files"}, {"status"}, {"log"}, {"reflog"}, {"rev-parse", "HEAD"}}
+		// what cat-file prints for every object of the intact repository (blobs and commits: kind and bytes; trees: kind)
+		ba := base.Abs()
+		ids := keysObj(ba.Objects)
+		for _, id := range ids {
+			if o := ba.Objects[id]; o.Err == nil {
+				c19Want.Store("-t "+id, o.Kind+"\n")
+				if o.Kind != "tree" {
+					c19Want.Store("-p "+id, string(o.Body)+"\n")
+				}
+			}
+		}
+		cmds := [][]string{{"cat-file", "-p", tip}, {"cat-file", "-t", tip}, {"ls-files"}, {"status"}, {"log"}, {"reflog"}, {"rev-parse", "HEAD"}}
 		var cs []Case
 		for _, p := range files {
 			orig := base.Files[p]
@@ -116,6 +137,27 @@ func checkC19(e *RunEnv) *CheckResult {
 					t := append([]string{"file:" + kindOfGoitFile(rel)}, tags[mi]...)
 					cs = append(cs, Case{Base: base, BaseName: "corpus", BaseSeed: corpusTrace(), Steps: []Step{{Op: "write", Path: rel, Data: m}, Run(cmd...).WithTags(t...)}})
 				}
+			}
+		}
+		// every object file replaced by every other object's file: cat-file of the name must not serve the other content
+		for _, a := range ids {
+			for _, b := range ids {
+				if a == b {
+					continue
+				}
+				rel := ".goit/objects/" + a[:2] + "/" + a[2:]
+				data := base.Files["root/.goit/objects/"+b[:2]+"/"+b[2:]]
+				t := []string{"file:object", "mutation:swap"}
+				cs = append(cs, Case{Base: base, BaseName: "corpus", BaseSeed: corpusTrace(), Steps: []Step{{Op: "write", Path: rel, Data: data}, Run("cat-file", "-t", a).WithTags(t...), Run("cat-file", "-p", a).WithTags(t...)}})
+			}
+		}
+		// every truncation of every object file: cat-file of that very object
+		for _, a := range ids {
+			rel := ".goit/objects/" + a[:2] + "/" + a[2:]
+			orig := base.Files["root/"+rel]
+			for i := 0; i < len(orig); i++ {
+				t := []string{"file:object", "mutation:truncate"}
+				cs = append(cs, Case{Base: base, BaseName: "corpus", BaseSeed: corpusTrace(), Steps: []Step{{Op: "write", Path: rel, Data: orig[:i]}, Run("cat-file", "-t", a).WithTags(t...), Run("cat-file", "-p", a).WithTags(t...)}})
 			}
 		}
 		cli = x.RunCases(cs)
